@@ -255,7 +255,7 @@ def case_lines_upto(case, idx):
 def run_check(prop, tier, oracle, rule, assumptions, extra=None):
     """oracle(cases, res) -> list of dict(signature, case_lines, detail)"""
     res = Result(prop, tier, "proof")
-    st = standard_build(res, prop, group="ed", harness_bin="ed", model_deps=MODEL_DEPS)
+    st = standard_build(res, prop, group="ed", harness_bin="ed", model_deps=MODEL_DEPS, tablegen_groups=("bopomofo", "editor"))
     work = os.path.join(BUILD, "work", "%s-%s" % (prop, tier))
     if os.path.isdir(work):
         shutil.rmtree(work, ignore_errors=True)
